@@ -40,15 +40,21 @@ def split_defs(doc):
     return doc, defs
 
 
-def js_coq(s, leaf_names, prefixes=("#/$defs/", "#/definitions/", "#/components/schemas/")):
+def js_coq(s, leaf_names, prefixes=("#/$defs/", "#/definitions/", "#/components/schemas/"), keep_annot=False, marker=None):
+    """keep_annot: annotation keywords are kept as KwAnnot name (their presence matters to isolate_ref);
+    marker: name of the definitions keyword present next to the root schema"""
     if isinstance(s, bool):
         return f"(JBoolS {coq_bool(s)})"
     if not isinstance(s, dict):
         raise Unsupported(f"schema {s!r}")
-    rec = lambda x: js_coq(x, leaf_names, prefixes)
+    rec = lambda x: js_coq(x, leaf_names, prefixes, keep_annot)
     kws = []
+    if marker:
+        kws.append(f"KwAnnot {coq_str(marker)}")
     for k, v in s.items():
         if k in ANNOTATIONS:
+            if keep_annot:
+                kws.append(f"KwAnnot {coq_str(k)}")
             continue
         if k == "type":
             ts = [v] if isinstance(v, str) else list(v)
@@ -111,11 +117,17 @@ def js_coq(s, leaf_names, prefixes=("#/$defs/", "#/definitions/", "#/components/
     return "(JS " + coq_list(kws) + ")"
 
 
-def doc_coq(doc):
-    """(js term, defs term) of a schema document"""
+def doc_coq(doc, keep_annot=False, external_defs=None, no_marker=False):
+    """(js term, defs term) of a schema document; external_defs: definitions generated apart (OpenAPI components)"""
     s, defs = split_defs(doc)
+    marker = None
+    if keep_annot and defs and not no_marker:
+        marker = "$defs" if "$defs" in doc else "definitions"
+    if external_defs:
+        defs = dict(defs, **external_defs)
     leaf = {n for n, d in defs.items() if not has_subschema(d)}
-    return js_coq(s, leaf), coq_list(f"({coq_str(n)}, {js_coq(d, leaf)})" for n, d in defs.items())
+    return (js_coq(s, leaf, keep_annot=keep_annot, marker=marker),
+            coq_list(f"({coq_str(n)}, {js_coq(d, leaf, keep_annot=keep_annot)})" for n, d in defs.items()))
 
 
 def strip_annotations(s):
